@@ -70,7 +70,7 @@ func (ex *Explorer) tab(t *Term) *[256]uint64 {
 	if r, ok := ex.ds.tabs[t]; ok {
 		return r
 	}
-	r := new([256]uint64)
+	r := ex.newTab()
 	switch t.op {
 	case OpConst:
 		for v := range r {
@@ -201,27 +201,99 @@ func (ex *Explorer) noteConstraint(t *Term) {
 	}
 }
 
-// domDecide tries to decide boolean term c with the finite-domain procedure.
-// result: 1 implied true, 0 implied false, 2 both sides feasible (witness for
-// each side returned), -1 not applicable (use the solver).
-func (ex *Explorer) domDecide(c *Term) (res int, wTrue, wFalse int) {
+// conjuncts flattens an And-tree of single-variable terms over small
+// variables; ok=false if some leaf is not of that form.
+func (ex *Explorer) conjuncts(c *Term, out map[int32]*bitset256) bool {
+	if c.op == OpAnd {
+		return ex.conjuncts(c.a, out) && ex.conjuncts(c.b, out)
+	}
 	if c.sv < 0 || !ex.smallVar(c.sv) {
-		return -1, 0, 0
+		return false
 	}
-	d := ex.domOf(c.sv)
 	ts := ex.truthSet(c)
-	inT := d.and(&ts)
-	inF := d.andNot(&ts)
-	switch {
-	case inF.empty() && inT.empty():
-		return -1, 0, 0 // infeasible path?! let the solver speak
-	case inF.empty():
-		return 1, 0, 0
-	case inT.empty():
-		return 0, 0, 0
+	if cur, ok := out[c.sv]; ok {
+		m := cur.and(&ts)
+		out[c.sv] = &m
+	} else {
+		out[c.sv] = &ts
 	}
-	if ex.ds.multi[c.sv] {
-		return -1, 0, 0
+	return true
+}
+
+// domDecide tries to decide boolean term c with the finite-domain procedure.
+// result: 1 implied true, 0 implied false, 2 both sides feasible (witness
+// assignments for each side returned), -1 not applicable (use the solver).
+func (ex *Explorer) domDecide(c *Term) (res int, wTrue, wFalse map[int32]int) {
+	neg := false
+	for c.op == OpNot {
+		c = c.a
+		neg = !neg
 	}
-	return 2, inT.first(), inF.first()
+	flip := func(r int, a, b map[int32]int) (int, map[int32]int, map[int32]int) {
+		if !neg {
+			return r, a, b
+		}
+		switch r {
+		case 0:
+			return 1, nil, nil
+		case 1:
+			return 0, nil, nil
+		}
+		return r, b, a
+	}
+	parts := map[int32]*bitset256{}
+	if !ex.conjuncts(c, parts) {
+		return -1, nil, nil
+	}
+	allTrue := true
+	anyMulti := false
+	wT := map[int32]int{}
+	var wF map[int32]int
+	for x, ts := range parts {
+		d := ex.domOf(x)
+		inT := d.and(ts)
+		inF := d.andNot(ts)
+		if inT.empty() && inF.empty() {
+			return -1, nil, nil
+		}
+		if inT.empty() {
+			return flip(0, nil, nil)
+		}
+		if !inF.empty() {
+			allTrue = false
+			if wF == nil || x < firstKey(wF) {
+				wF = map[int32]int{x: inF.first()}
+			}
+		}
+		wT[x] = inT.first()
+		if ex.ds.multi[x] {
+			anyMulti = true
+		}
+	}
+	if allTrue {
+		return flip(1, nil, nil)
+	}
+	if anyMulti {
+		return -1, nil, nil
+	}
+	return flip(2, wT, wF)
+}
+
+func firstKey(m map[int32]int) int32 {
+	for k := range m {
+		return k
+	}
+	return -1
+}
+
+// newTab hands out a table from a per-worker arena that is recycled at the
+// start of every path.
+func (ex *Explorer) newTab() *[256]uint64 {
+	if ex.arenaPos+256 > len(ex.arena) {
+		ex.arena = make([]uint64, 256*512)
+		ex.arenaPos = 0
+	}
+	r := (*[256]uint64)(ex.arena[ex.arenaPos : ex.arenaPos+256])
+	ex.arenaPos += 256
+	return r
 }
